@@ -8,6 +8,7 @@
 #include <fstream>
 #include <sstream>
 #include <tao/pegtl/argv_input.hpp>
+#include <tao/pegtl/contrib/analyze.hpp>
 #include <tao/pegtl/cstream_input.hpp>
 #include <tao/pegtl/istream_input.hpp>
 #include <tao/pegtl/read_input.hpp>
@@ -257,6 +258,34 @@ namespace vt
          classes_one< Root, fam2, tc_hid, AA, MO >( s );
          classes_files< Root, fam1, tc_hid_uw, AA, MR >( s );
       } );
+   }
+
+   // grammar analysis (C11): what analyze< Root >() reports, then fuel-limited real runs on every short input
+   template< typename Root >
+   void cfgs_ana( const std::string& sigma, int maxlen )
+   {
+      Global& G = g();
+      describe< Root >();
+      const std::size_t problems = pegtl::analyze< Root >( -1 );
+      {
+         Writer& w = G.tr;
+         w.maybe_rotate();
+         w.s( "{\"k\":\"ana\"" );
+         w.kv( "g", rid< Root >() );
+         w.kv( "p", (long long)problems );
+         w.s( "}\n" );
+      }
+      const long long fuel = G.fuel;
+      const int md = G.max_depth;
+      G.fuel = 600;        // a grammar that loops without progress is cut early: keeps the traces small
+      G.max_depth = 60;
+      g().fuel_cases = -1000000;   // do not stop exploring a grammar because it runs out of fuel: that is the point here
+      for_all_strings( sigma, maxlen, [ & ]( const std::string& s ) {
+         CaseCfg c;
+         run_memory_case< Root, pegtl::nothing, tc_hid, AA, MR, TE, LFCRLF >( c, s );
+      } );
+      G.fuel = fuel;
+      G.max_depth = md;
    }
 
    // all five end-of-line policies, eager and lazy (C06)
